@@ -18,6 +18,13 @@ def sh(cmd, cwd=None):
 
 
 def demo(wt, d):
+    if not os.path.exists(os.path.join(d, "demo.xr")) or os.environ.get("SEED_DEMO") == "rs":
+        # a Rust integration test: dropped into tests/ and run on its own
+        shutil.copy(os.path.join(d, "demo.rs"), os.path.join(wt, "tests", "demo.rs"))
+        rc, out = sh("cargo test --offline --test demo 2>&1 | tail -n 30", wt)
+        sh("git checkout -- tests && git clean -fdq tests", wt)
+        ok = "test result: ok." in out and "0 failed" in out and "error" not in out.split("test result")[0][-400:].lower().replace("0 errors", "")
+        return ok, out[-1200:]
     slot = os.path.join(wt, "test_scripts", "001_variables.xr")
     shutil.copy(os.path.join(d, "demo.xr"), slot)
     toml = os.path.join(d, "demo.toml")
